@@ -11,6 +11,7 @@ import (
 	"io/ioutil"
 	"os"
 	"path/filepath"
+	"runtime"
 	"runtime/pprof"
 	"sort"
 	"strconv"
@@ -73,6 +74,10 @@ func Start(prop, level string) *Run {
 		if fh, err := os.Create(pf); err == nil {
 			pprof.StartCPUProfile(fh)
 		}
+	}
+	if os.Getenv("VERIF_BLOCKPROFILE") != "" {
+		runtime.SetBlockProfileRate(10000)
+		runtime.SetMutexProfileFraction(5)
 	}
 	seed, _ := strconv.Atoi(envOr("VERIF_SEED", "0"))
 	r := &Run{Prop: prop, Level: level, Tier: *tier, Seed: seed, ReplayPath: *replay,
@@ -215,6 +220,51 @@ func (r *Run) Violation(key, what string, replay interface{}) {
 	r.order = append(r.order, key)
 }
 
+// Exported is what a worker process hands back to the parent run: its violations (with first replay and count), its
+// cap / free-text notes and samples. See Export / Import.
+type Exported struct {
+	Violations []violation   `json:"violations"`
+	Notes      []string      `json:"notes"`
+	Samples    []interface{} `json:"samples"`
+	Exhaustive bool          `json:"exhaustive"`
+}
+
+// Export returns everything this (worker) run recorded since the last Export, in recording order, and forgets it.
+func (r *Run) Export() Exported {
+	r.mu.Lock()
+	defer r.mu.Unlock()
+	e := Exported{Notes: r.notes, Samples: r.samples, Exhaustive: r.exhaustive}
+	for _, k := range r.order {
+		e.Violations = append(e.Violations, *r.viol[k])
+	}
+	r.notes, r.samples, r.order, r.viol, r.exhaustive = nil, nil, nil, map[string]*violation{}, true
+	return e
+}
+
+// Import merges what a worker process recorded into this run.
+func (r *Run) Import(e Exported) {
+	for _, v := range e.Violations {
+		r.mu.Lock()
+		if x, ok := r.viol[v.Key]; ok {
+			x.Count += v.Count
+		} else {
+			vv := v
+			r.viol[v.Key] = &vv
+			r.order = append(r.order, v.Key)
+		}
+		r.mu.Unlock()
+	}
+	r.mu.Lock()
+	r.notes = append(r.notes, e.Notes...)
+	if !e.Exhaustive {
+		r.exhaustive = false
+	}
+	r.mu.Unlock()
+	for _, s := range e.Samples {
+		r.Sample(s)
+	}
+}
+
 // NViolations returns the number of distinct violation keys so far.
 func (r *Run) NViolations() int {
 	r.mu.Lock()
@@ -231,6 +281,16 @@ func Fatalf(format string, a ...interface{}) {
 // Finish writes the evidence file, prints KNOWN-FINDING / VIOLATION lines and exits 0 or 1.
 func (r *Run) Finish() {
 	pprof.StopCPUProfile()
+	if pf := os.Getenv("VERIF_BLOCKPROFILE"); pf != "" {
+		if fh, err := os.Create(pf); err == nil {
+			pprof.Lookup("block").WriteTo(fh, 0)
+			fh.Close()
+		}
+		if fh, err := os.Create(pf + ".mutex"); err == nil {
+			pprof.Lookup("mutex").WriteTo(fh, 0)
+			fh.Close()
+		}
+	}
 	r.mu.Lock()
 	wall := time.Since(r.start).Seconds()
 	unlisted := 0
